@@ -143,6 +143,7 @@ func TestC09_Kernels(t *testing.T) {
 	if len(names) == 0 {
 		t.Skip("no ops selected")
 	}
+	coldPrologue(t, names, "C09_Kernels")
 	rapid.Check(t, func(t *rapid.T) { differential(t, names, "C09_Kernels") })
 }
 
